@@ -58,6 +58,10 @@ def firstCI (wire : Headers) (name : String) : String :=
   | some kv => kv.2
   | none => ""
 
+/-- values of all lines named `name` (any casing), in order of arrival -/
+def allCI (wire : Headers) (name : String) : List String :=
+  (wire.filter fun kv => eqIgnoreCase kv.1 name).map (·.2)
+
 /-- the lines that do not belong to the forwarded family -/
 def nonFamily (wire : Headers) : Headers := wire.filter fun kv => !isFamilyName kv.1
 
@@ -83,5 +87,20 @@ def overriddenView (parse : UriParse) (r : Req) : View :=
     rawPath := orElse (specUri parse r.wire).1 r.escPath
     query   := orElse (specUri parse r.wire).2 r.rawQuery
     ips     := specAnnounced r.wire ++ [peerIP r] }
+
+/-- trusted peer, proxy mode: what the upstream must receive of the forwarded family. The list headers are the
+    received lists (every line, in order) extended by the real connection; `X-Forwarded-*` is used as soon as one of
+    `X-Forwarded-For/Proto/Host` arrived, otherwise `Forwarded`. -/
+def extendedUpstream (r : Req) : Headers :=
+  let ff := joinList (allCI r.wire "X-Forwarded-For")
+  let fp := firstCI r.wire "X-Forwarded-Proto"
+  let fh := firstCI r.wire "X-Forwarded-Host"
+  let fw := joinList (allCI r.wire "Forwarded")
+  if ff ≠ "" ∨ fp ≠ "" ∨ fh ≠ "" then
+    [("X-Forwarded-For", if ff = "" then peerIP r else ff ++ ", " ++ peerIP r),
+     ("X-Forwarded-Proto", orElse fp (proto r)),
+     ("X-Forwarded-Host", orElse fh r.host)]
+  else
+    [("Forwarded", if fw = "" then ownForwarded r else fw ++ ", " ++ ownForwarded r)]
 
 end Heimdall.Fwd
